@@ -161,7 +161,11 @@ pub fn prop() -> HistProp {
     HistProp {
         id: "C10",
         level: "exploration",
-        profile: CfgProfile::general(),
+        profile: {
+            let mut p = CfgProfile::general();
+            p.long_names = true;
+            p
+        },
         weights: {
             let mut w = Weights::trading();
             w.alias = 8;
@@ -171,7 +175,7 @@ pub fn prop() -> HistProp {
         max_ops: (40, 100),
         cases: (10_000, 300_000),
         make: || Box::new(Mon::default()),
-        rule: "engine histories as in C02. Every trader's Position (all eight fields, or absent) on every vAMM is read before and after each transaction: for a transaction sent by account a the positions of all traders other than a are identical, except the position named by a Liquidate. The histories include adversarial addressing: one trader is named \"0\" + another trader's name, and that other trader sends Deposit/Withdraw/Close/Open/Liquidate messages naming the address \"<vamm>0\" (which aliases the first one's position key if keys are built by concatenation). Every fifth step all query variants of all contracts are issued and the full storage dump must be unchanged. Non-trivial: at least 3 traders held positions on one vAMM at the same time and at least 5 successful engine transactions by at least 3 different senders. Distinct by digest of (cfg, ops).",
+        rule: "engine histories as in C02. Every trader's Position (all eight fields, or absent) on every vAMM is read before and after each transaction: for a transaction sent by account a the positions of all traders other than a are identical, except the position named by a Liquidate. The histories include adversarial addressing: one trader is named \"0\" + another trader's name, and that other trader sends Deposit/Withdraw/Close/Open/Liquidate messages naming the address \"<vamm>0\" (which aliases the first one's position key if keys are built by concatenation); two other traders have 44-byte addresses that differ only in their last byte (which collide if keys keep a fixed-width prefix of the address). Every fifth step all query variants of all contracts are issued and the full storage dump must be unchanged. Non-trivial: at least 3 traders held positions on one vAMM at the same time and at least 5 successful engine transactions by at least 3 different senders. Distinct by digest of (cfg, ops).",
         assumptions: &[],
         eval_counter: None,
     }
